@@ -17,3 +17,4 @@ def check(repo, rep, tier):
     rep.run(rx.rule_facts_immutable, em, rep, 'C14.L4')
     rep.run(rx.rule_store_shadows_follow, em, rep, 'C14.L5')
     rep.run(rd.rule_walked_lists_never_changed_in_place, em, rep, 'C14.L6')
+    rep.run(rx.rule_fact_objects_one_per_assert, em, rep, 'C14.L7')
